@@ -7,7 +7,7 @@ import numpy as np
 from . import common, place, xt
 from .xt import veq
 
-VMODES = ["ramp", "extreme", "minimal"]
+VMODES = ["ramp", "extreme", "minimal", "long"]
 PY_FORMS = ["py"]
 ND = ["nd", "ndF", "ndS", "ndD", "ndR"]
 XOBJ = ["xobj-same", "xobj-other", "xobj-ctx", "xobj-kind", "xobj-nested", "xobj-slack", "ref-same", "ref-foreign", "xobj-view", "xobj-nested-view"]
@@ -272,7 +272,10 @@ def feats(t, vmode, form, pname):
 def enumerate_cases(types, vmodes, forms, places_for):
     """yield (t, vmode, v, form, pname)"""
     for t in types:
+        has_str = any(s_[0] == "Str" for s_ in xt.subtypes(t))
         for vmode in vmodes:
+            if vmode == "long" and not has_str:
+                continue  # identical to ramp when there is no string
             v = xt.gen(t, vmode)
             for form in forms_for(t, v, forms):
                 for pname in places_for(t, form):
